@@ -1420,7 +1420,12 @@ class C16(Prop):
                 fl["inst_hook"] = bool(ismod and (has_inst_hook(fv, name) or has_inst_hook(old_ns.get(n), name)))
                 if ismod and not isinstance(fv, type):
                     sl = [k for k in type(fv).__mro__ if k.__dict__.get("__slots__")]
-                    fl["slots_mixed"] = bool(sl) and (len(sl) > 1 or hasattr(fv, "__dict__"))
+                    # ... or slots that _livepatch__object cannot find by reading __slots__ literally (a single string of
+                    # more than one character, a private name that is stored mangled): H4b, same loop as D50
+                    odd = [k for k in sl if isinstance(k.__dict__["__slots__"], str) and len(k.__dict__["__slots__"]) > 1
+                           or not isinstance(k.__dict__["__slots__"], str)
+                           and any(isinstance(x, str) and x.startswith("__") and not x.endswith("__") for x in k.__dict__["__slots__"])]
+                    fl["slots_mixed"] = bool(sl) and (len(sl) > 1 or hasattr(fv, "__dict__") or bool(odd))
                 flags[n] = fl
             # a name that calls (through module globals) a flagged name inherits the flags that describe *what* is bound
             deps = {n: global_deps(fd[n], name) & set(flags) for n in flags if n in fd}
